@@ -5,6 +5,7 @@
 
 #include <etl/_cstddef/size_t.hpp>
 #include <etl/_strings/cstr.hpp>
+#include <etl/_type_traits/is_constant_evaluated.hpp>
 
 namespace etl {
 
@@ -25,7 +26,19 @@ constexpr auto wmemmove(wchar_t* dest, wchar_t const* src, etl::size_t count) no
 #if defined(__clang__)
     return __builtin_wmemmove(dest, src, count);
 #else
-    return etl::detail::memmove<wchar_t, etl::size_t>(dest, src, count);
+    if (not etl::is_constant_evaluated()) {
+        return etl::detail::memmove<wchar_t, etl::size_t>(dest, src, count);
+    }
+    // constant evaluation: no cast from void*; dest inside (src, src + count) is found by equality
+    auto backward = false;
+    for (etl::size_t i = 1; i < count; ++i) {
+        backward = backward or (src + i == dest);
+    }
+    for (etl::size_t i = 0; i != count; ++i) {
+        auto const k = backward ? count - 1 - i : i;
+        dest[k]      = src[k];
+    }
+    return dest;
 #endif
 }
 } // namespace etl
